@@ -33,6 +33,7 @@ def explore(ctx, label, rng, n, profile, target, no_append=False, cases=None):
     res = relcheck.run_cases(cases, target)
     nbad = 0
     for c, r in zip(cases, res):
+        orig = c
         nontrivial = r["status"] == "ok" and r.get("mode") != "ambiguous" and bool(r.get("rows"))
         ctx.case((c.prql, str(c.db), target), nontrivial=nontrivial)
         ctx.count(f"{label}:{r['status']}" + (":" + r.get("mode", "") if r["status"] == "ok" else ""))
@@ -61,7 +62,8 @@ def explore(ctx, label, rng, n, profile, target, no_append=False, cases=None):
                            {"prql": c.prql, "target": target, "db": c.db, "schema": c.schema_list, "sql": r.get("sql"),
                             "observed_rows": r.get("rows"), "observed_columns": r.get("names"),
                             "expected_rows": r.get("model_rows"), "expected_columns": c.columns,
-                            "order_flags": r.get("flags"), "status": r["status"], "detail": r["detail"], "class": fid})
+                            "order_flags": r.get("flags"), "status": r["status"], "detail": r["detail"], "class": fid},
+                           det_key=None if label.startswith("seed") else (orig.prql, orig.db, target))
     return nbad
 
 
@@ -86,12 +88,11 @@ def run(ctx):
     syscases = relgen.systematic_cases(3 if quick else 4, SAFE, sample=(sysrng, 500 if quick else 3000))
     ctx.coverage_extra["systematic_sequences"] = len(syscases)
     nbad += explore(ctx, "systematic", None, 0, SAFE, "sql.sqlite", cases=syscases)
-    fixed = random.Random(20240924)
-    nbad += explore(ctx, "safe", fixed, 500 if quick else 3000, SAFE, "sql.sqlite")
-    nbad += explore(ctx, "safe-generic", fixed, 200 if quick else 1500, SAFE, "sql.generic")
-    nbad += explore(ctx, "literals+functions", fixed, 250 if quick else 2000, RICH, "sql.sqlite")
-    nbad += explore(ctx, "full", fixed, 200 if quick else 1500, FULL, "sql.sqlite")
-    nbad += explore(ctx, "undeclared", fixed, 150 if quick else 1000, UNDECL, "sql.sqlite", no_append=False)
+    nbad += explore(ctx, "safe", random.Random(20240924), 500 if quick else 3000, SAFE, "sql.sqlite")
+    nbad += explore(ctx, "safe-generic", random.Random(20240925), 200 if quick else 1500, SAFE, "sql.generic")
+    nbad += explore(ctx, "literals+functions", random.Random(20240926), 250 if quick else 2000, RICH, "sql.sqlite")
+    nbad += explore(ctx, "full", random.Random(20240927), 200 if quick else 1500, FULL, "sql.sqlite")
+    nbad += explore(ctx, "undeclared", random.Random(20240928), 150 if quick else 1000, UNDECL, "sql.sqlite", no_append=False)
     nbad += explore(ctx, "seed-tail", ctx.rng, 300 if quick else 3000, SAFE, "sql.sqlite")
     ctx.obligation("oracle: real SQL on SQLite returns the rows of Model.Rel.evalSrc (all unlisted cases)", not ctx.violations,
                    f"{nbad} failing cases, all but {len(ctx.violations)} match listed findings")
